@@ -38,9 +38,11 @@ class Engine:
             self._canon = Canon(self.p)
         return self._canon
 
-    def cnode(self, func, paths=False):
+    def cnode(self, func, paths=False, inline=True):
         """canonical tree of the function: single-use private helpers written out, aliases resolved, exits / negations / keyword arguments in one form.
         paths=True: locals that only name an attribute path (`_counts = self._data`) are written out as well (see canon.close_paths)"""
+        if not inline:
+            return self.canon.fn(func, inline=False)
         if not paths:
             return self.canon.fn(func)
         k = ("paths", id(func))
